@@ -26,10 +26,13 @@ import (
 //	"429"      Limiter(q): above_limit -> GenerateResponse(429); below_limit -> end
 //	"early"    Limiter(q): above_limit -> GenerateResponse(429); below_limit -> GenerateResponse(200)
 //	"forward"  Limiter(q): both outputs -> end (a refused request is forwarded anyway)
+//	"two"      Limiter(q): above_limit -> GenerateResponse(429); below_limit -> Limiter(q2):
+//	           above_limit -> GenerateResponse(429); below_limit -> end   (q2 unrelated to q)
 type EngCfg struct {
 	Cfg
-	Limiter int    `json:"limiter_quota"`
-	Style   string `json:"flow_style"`
+	Limiter  int    `json:"limiter_quota"`
+	Limiter2 int    `json:"second_limiter_quota"` // -1: none
+	Style    string `json:"flow_style"`
 }
 
 func (e *EngCfg) flowYAML() string {
@@ -39,6 +42,10 @@ func (e *EngCfg) flowYAML() string {
 	fmt.Fprintf(&sb, "  %s:\n    processor: Limiter\n    parameters:\n      - key: quota_id\n        value: %s\n", lim, qid(e.Limiter))
 	gen := func(name string, status int) {
 		fmt.Fprintf(&sb, "  %s:\n    processor: GenerateResponse\n    parameters:\n      - key: status\n        value: %d\n", name, status)
+	}
+	lim2 := fmt.Sprintf("lim%d", e.Limiter2)
+	if e.Style == "two" {
+		fmt.Fprintf(&sb, "  %s:\n    processor: Limiter\n    parameters:\n      - key: quota_id\n        value: %s\n", lim2, qid(e.Limiter2))
 	}
 	if e.Style != "forward" {
 		gen("gen429", 429)
@@ -75,6 +82,11 @@ func (e *EngCfg) flowYAML() string {
 	case "forward":
 		conn(lim, "above_limit", "")
 		conn(lim, "below_limit", "")
+	case "two":
+		conn(lim, "above_limit", "gen429")
+		conn(lim, "below_limit", lim2)
+		conn(lim2, "above_limit", "gen429")
+		conn(lim2, "below_limit", "")
 	}
 	sb.WriteString("  response:\n")
 	if e.Style != "forward" {
@@ -89,7 +101,9 @@ func (e *EngCfg) flowYAML() string {
 
 // referenced: quotas named by a Limiter of the user flow, and their ancestors
 // (for those the engine switches the system flow's QuotaProcessorInc off).
-func (e *EngCfg) referenced(q int) bool { return e.onChain(e.Limiter, q) }
+func (e *EngCfg) referenced(q int) bool {
+	return e.onChain(e.Limiter, q) || (e.Style == "two" && e.onChain(e.Limiter2, q))
+}
 
 // Pev is one quota-relevant processor execution observed through the
 // processor-executed hook (or inferred: "finish").
